@@ -69,7 +69,10 @@ fn run_once_x(case: &Case, sc: &Scratch, tag: &str, faults: &BTreeMap<(String, u
         }
     }
     hh.set_mode(if faults.is_empty() { MODE_TRACE } else { MODE_FAULT });
-    let sess = Sess::start(cfg, &dir, false, Some(&err), None).map_err(|e| ("start-failed".to_string(), e))?;
+    let sess = std::cell::RefCell::new(Some(Sess::start(cfg, &dir, false, Some(&err), None).map_err(|e| ("start-failed".to_string(), e))?));
+    // a third of the cases restart the logger (no append) in the middle of the history, so that
+    // faults can also hit the initialisation of a writer that finds files of an earlier run
+    let restart_at = if !slow_cleanup && cfg.rot.is_some() && case.burst_seed % 3 == 0 && case.ops.len() >= 2 { Some(case.ops.len() / 2) } else { None };
     let mut model = Model::new(cfg);
     model.start_run(false);
     let mut q = 0u32;
@@ -102,7 +105,7 @@ fn run_once_x(case: &Case, sc: &Scratch, tag: &str, faults: &BTreeMap<(String, u
             line.extend_from_slice(cfg.line_ending());
             events.borrow_mut().push((hh.time(), Some(line)));
         }
-        sess.write(&p);
+        sess.borrow().as_ref().unwrap().write(&p);
         let hits: Vec<(String, u64)> = hh.points.lock().unwrap().faults_hit[hits_before..].to_vec();
         let grew = err_len() > e0;
         for hkey in &hits {
@@ -117,21 +120,30 @@ fn run_once_x(case: &Case, sc: &Scratch, tag: &str, faults: &BTreeMap<(String, u
         }
         *q += 1;
     };
-    for op in &case.ops {
+    for (op_index, op) in case.ops.iter().enumerate() {
+        if restart_at == Some(op_index) {
+            if let Some(old) = sess.borrow_mut().take() {
+                old.shutdown();
+            }
+            events.borrow_mut().push((hh.time(), Some(Vec::new())));
+            let again = Sess::start(cfg, &dir, false, Some(&err), None).map_err(|e| ("restart-failed".to_string(), e))?;
+            *sess.borrow_mut() = Some(again);
+            initialized = false;
+        }
         match op {
             Op::Write(len) => do_write(*len, &mut q, &mut res, &mut initialized),
             Op::Rotate => {
                 let hits_before = hh.points.lock().unwrap().faults_hit.len();
                 let e0 = err_len();
                 events.borrow_mut().push((hh.time(), None));
-                let r = sess.rotate();
+                let r = sess.borrow().as_ref().unwrap().rotate();
                 let hits: Vec<(String, u64)> = hh.points.lock().unwrap().faults_hit[hits_before..].to_vec();
                 // an explicit rotation reports its failure through its result
                 for hkey in &hits {
                     res.err_grew.insert(hkey.clone(), r.is_err() || err_len() > e0);
                 }
             }
-            Op::Flush => sess.flush(),
+            Op::Flush => sess.borrow().as_ref().unwrap().flush(),
             Op::Advance(ms) => hh.advance(*ms * MS),
             Op::FailWrite(_) => {} // not generated for this property (faults come from its own enumeration)
             Op::MoveAwayAndReopen => {}
@@ -157,13 +169,15 @@ fn run_once_x(case: &Case, sc: &Scratch, tag: &str, faults: &BTreeMap<(String, u
     let tail_a = q - 1;
     if cfg.rot.is_some() {
         events.borrow_mut().push((hh.time(), None));
-        if sess.rotate().is_err() {
+        if sess.borrow().as_ref().unwrap().rotate().is_err() {
             res.tail_rotate_ok = false;
         }
     }
     do_write(11, &mut q, &mut res, &mut initialized);
     let tail_b = q - 1;
-    sess.shutdown();
+    if let Some(last) = sess.borrow_mut().take() {
+        last.shutdown();
+    }
     if faults.is_empty() {
         res.trace = hh.take_trace().into_iter().map(|(n, o, _)| (n.to_string(), o)).collect();
     }
@@ -201,6 +215,7 @@ fn run_once_x(case: &Case, sc: &Scratch, tag: &str, faults: &BTreeMap<(String, u
     }
     for (t, ev) in events.borrow().iter() {
         match ev {
+            Some(line) if line.is_empty() => model.start_run(false),
             Some(line) => model.write(line, *t),
             None => model.rotate(*t),
         }
@@ -253,7 +268,9 @@ fn check_run_x(case: &Case, res: &RunRes, what: &str, partition: bool) -> Result
         }
         let faults = res.faults_during.get(&r).cloned().unwrap_or_default();
         let own_write_failed = faults.iter().any(|f| f == "write");
-        let init_failed = !faults.is_empty() && !res.init_done_before.get(&r).copied().unwrap_or(true);
+        // (a failing open or rename keeps the writer from being initialised; a failing cleanup or
+        // compression step must not)
+        let init_failed = faults.iter().any(|f| !f.starts_with("cleanup.") && !f.starts_with("gz.")) && !res.init_done_before.get(&r).copied().unwrap_or(true);
         if own_write_failed || init_failed {
             continue;
         }
